@@ -9,6 +9,7 @@ import (
 	"sort"
 	"strconv"
 	"strings"
+	"sync"
 	"testing"
 	"time"
 
@@ -51,6 +52,7 @@ type c20World struct {
 	IntervalNS int64    `json:"interval_ns"` // mw-*: whole seconds
 	WhiteList  []string `json:"whitelist,omitempty"`
 	Clients    int      `json:"clients"`
+	Log        bool     `json:"log,omitempty"` // api-race: a request-limit log file is configured (state dumped at each interval end)
 }
 
 type c20Op struct {
@@ -62,6 +64,8 @@ type c20Op struct {
 	Path    string `json:"path,omitempty"`     // live | vod
 	Method  string `json:"method,omitempty"`   // GET | HEAD
 	SleepNS int64  `json:"sleep_ns,omitempty"` // sleep: advance of the fake clock
+	Park    int    `json:"park,omitempty"`     // api-race: park this call before its k-th mutex acquisition (lock-instrumented build)
+	Hold    int    `json:"hold,omitempty"`     // ... and resume it after this many further calls of other clients have started
 }
 
 type C20 struct{}
@@ -319,6 +323,9 @@ func (C20) Gen(rng *core.Rng, tier string, idx int) *core.Scenario {
 			addrs = append(addrs, a)
 		}
 	}
+	if w.Kind == "api-race" {
+		w.Log = rng.Chance(0.5)
+	}
 	sc := core.NewScenario("C20", "racesim", 0, tier, w)
 	m := newC20Model(w)
 	nOps := rng.Range(8, 40)
@@ -395,6 +402,10 @@ func (C20) Gen(rng *core.Rng, tier string, idx int) *core.Scenario {
 				lastNow[op.Client] = now
 				op.NowNS = now
 				m.inc(now, op.IP, a)
+			}
+			if rng.Chance(0.12) { // another client's calls run while this one waits in front of a mutex
+				op.Park = core.Pick(rng, []int{1, 1, 2, 2, 3})
+				op.Hold = rng.Range(1, 3)
 			}
 			sc.AddOp(op)
 		}
@@ -536,6 +547,93 @@ func c20Serial(w c20World, ops []c20Op, idxs []int, obs []c20Obs, exec func(i in
 	for c := range done {
 		<-done[c]
 	}
+}
+
+var c20InstallOnce sync.Once
+
+// c20SerialYield is c20Serial with scheduling points: a call may be parked before its k-th mutex acquisition
+// (the -race binary is built from a lock-instrumented copy of the repository) while calls of other clients run;
+// it returns the indices in completion order. A client's own parked call is resumed before its next call starts.
+func c20SerialYield(w c20World, ops []c20Op, idxs []int, obs []c20Obs, exec func(i int) c20Obs, res *core.Result) []int {
+	clientOf := func(i int) int {
+		c := ops[i].Client
+		if c < 0 || c >= w.Clients {
+			c = 0
+		}
+		return c
+	}
+	clients := make([][]ygOp, w.Clients)
+	opOf := make([][]int, w.Clients)
+	for _, i := range idxs {
+		i := i
+		c := clientOf(i)
+		park := map[string]bool{}
+		if k := ops[i].Park; k > 0 {
+			if ops[i].Op == "read" {
+				k = 1 // two calls (Count, then EndTime): between them the operation is not one observation
+			}
+			park["lock#"+strconv.Itoa(k)] = true
+		}
+		clients[c] = append(clients[c], ygOp{ParkAt: park, Fn: func() { obs[i] = exec(i) }})
+		opOf[c] = append(opOf[c], i)
+	}
+	c20InstallOnce.Do(func() { app.SimYield = ygDispatch })
+	runner := newYgRunner(clients)
+	ygSetCurrent(runner)
+	runner.Start()
+	hold := map[int]int{} // parked client -> calls of others still to start before it resumes
+	var order []int
+	step := func(c int) {
+		st := runner.Step(c, 20*time.Second)
+		if runner.Hung {
+			panic("harness: serialized run hung")
+		}
+		switch {
+		case st.Noop:
+		case st.Parked != "":
+			if _, ok := hold[c]; !ok {
+				hold[c] = ops[opOf[c][st.OpIdx]].Hold
+				res.Count("fault.park-before-lock")
+			}
+		default:
+			order = append(order, opOf[c][st.OpIdx])
+			delete(hold, c)
+		}
+	}
+	finish := func(c int) {
+		for runner.InFlight(c) {
+			step(c)
+		}
+	}
+	for _, i := range idxs {
+		c := clientOf(i)
+		finish(c)
+		step(c)
+		for _, oc := range sortedIntKeys2(hold) {
+			if oc == c {
+				continue
+			}
+			hold[oc]--
+			if hold[oc] <= 0 {
+				finish(oc)
+			}
+		}
+	}
+	for _, oc := range sortedIntKeys2(hold) {
+		finish(oc)
+	}
+	runner.Finish()
+	ygSetCurrent(nil)
+	return order
+}
+
+func sortedIntKeys2(m map[int]int) []int {
+	var ks []int
+	for k := range m {
+		ks = append(ks, k)
+	}
+	sort.Ints(ks)
+	return ks
 }
 
 type c20Checker struct {
@@ -764,7 +862,17 @@ func (c *c20Checker) finish() {
 var c20Base = time.Date(2024, 3, 9, 12, 0, 0, 0, time.UTC)
 
 func c20RunAPI(w c20World, ops []c20Op, res *core.Result) {
-	il, err := app.NewIPRequestLimiter(w.Max, time.Duration(w.IntervalNS), c20Base, strings.Join(w.WhiteList, ","), "")
+	logFile := ""
+	if w.Log {
+		dir, err := os.MkdirTemp("", "verif-c20-")
+		if err != nil {
+			panic("harness: " + err.Error())
+		}
+		defer os.RemoveAll(dir)
+		logFile = filepath.Join(dir, "reqlimit.log")
+		res.Count("probe.limit-log-configured")
+	}
+	il, err := app.NewIPRequestLimiter(w.Max, time.Duration(w.IntervalNS), c20Base, strings.Join(w.WhiteList, ","), logFile)
 	if err != nil {
 		panic("harness: NewIPRequestLimiter: " + err.Error())
 	}
@@ -793,7 +901,7 @@ func c20RunAPI(w c20World, ops []c20Op, res *core.Result) {
 		return o
 	}
 	mark := hx.RaceMark()
-	c20Serial(w, ops, idxs, obs, exec)
+	idxs = c20SerialYield(w, ops, idxs, obs, exec, res) // now in completion order
 	c20RaceCheck(mark, res)
 
 	ck := newC20Checker(w, res)
